@@ -11,3 +11,5 @@
 (declare-fun pchild (Int Int) Int)
 (declare-fun pcols (Int) Int)
 ;@ghost selsch (Array Int Int)
+;@ghost ncmp Int
+;@ghost keyeq Bool
